@@ -110,7 +110,10 @@ CLAIMS.update({
         "Whole runs, order phase (theories/SimHooks.v): for every configuration with distinct market ids, hook table, tape, agent behaviour and fundamental path, a run that ends without "
         "exception has a stream of [user-event hook calls around orders, cancels and fills + acceptances + callbacks] equal to what the records born in the markets call for - per accepted "
         "order its before-hooks (at the acceptance time), the acceptance, the owner's callback, its after-hooks; likewise per cancel; per fill the callbacks then the after-execution hooks - "
-        "so each registered hook fires exactly once per matching occurrence and at no other moment. Session and market-step hooks are decided by the correspondence and the monitor. Probe events with random hook specs (all kinds, time lists with repeats, "
+        "so each registered hook fires exactly once per matching occurrence and at no other moment. Session and market-step hooks (theories/SimStepHooks.v): the stream of "
+        "begin/end records interleaved with the calls of session and market-step hooks is determined by the configuration alone - before-session hooks at the session's start time, "
+        "per step and market the before-step hooks that pass the class / instance filter (at the clock time), the order phase without any such call, the after-step hooks, the "
+        "after-session hooks at start + steps - 1 - each exactly once, for every configuration with distinct market ids, every hook table, tape and agent behaviour. Probe events with random hook specs (all kinds, time lists with repeats, "
         "instance and class filters) record every call; the stream is compared with the model and the monitor recomputes the expected calls from ground-truth occurrences.",
    note=S_NOTE),
  "C14": dict(level="proof", suites=["S"], design="5/C14",
